@@ -123,6 +123,85 @@ def restrict_config(h, mesh, selections, sub=None, bnd=None, pt=None):
         h.concrete('operand unchanged', ok)
 
 
+def join_config(h, mesh, split, op='add'):
+    """Joining meshes (m1 + m2, m1 @ m2) and dropping duplicate vertices: the joined mesh has every cell of both operands, slot by slot
+    at the operands' coordinates, and exactly one vertex per distinct point (shared interface vertices merged, nothing else)."""
+    import skfem as S
+    with warnings.catch_warnings():
+        warnings.simplefilter('ignore')
+        if h.sym_mode:
+            from engine import stubs_misc
+            stubs_misc.install_row_unique(h)
+            h.note('assumption: vertex coordinates are multiples of 1e-8 (Mesh.__add__ rounds to 8 decimals; modelled as the identity)')
+        m = make_mesh(h, mesh)
+        P, t = m.doflocs, np.asarray(m.t)
+        A, B = [int(c) for c in split[0]], [int(c) for c in split[1]]
+        mA = m.restrict(np.array(A, dtype=np.int32))
+        mB = m.restrict(np.array(B, dtype=np.int32))
+        h.sample(dict(mesh=mesh, first=A, second=B, operation=op))
+        snapA = np.array(mA.doflocs, copy=True)
+        if op == 'add':
+            J = mA + mB
+            parts = [(J, 0, mA), (J, len(A), mB)]
+            cellsJ = np.asarray(J.t)
+            h.concrete('cell count', cellsJ.shape[1] == len(A) + len(B))
+            PJ = J.doflocs
+        elif op == 'matmul':
+            JA, JB = mA @ mB
+            h.concrete('two meshes on ONE vertex table', JA.doflocs.shape == JB.doflocs.shape)
+            h.equal('same vertex table', np.asarray(JA.doflocs), np.asarray(JB.doflocs))
+            parts = [(JA, 0, mA), (JB, 0, mB)]
+            PJ = JA.doflocs
+        else:
+            # duplicate copies of every vertex, one per operand, then remove_duplicate_nodes
+            pd = np.hstack((np.asarray(mA.doflocs), np.asarray(mB.doflocs)))
+            td = np.hstack((np.asarray(mA.t), np.asarray(mB.t) + mA.doflocs.shape[1]))
+            D = type(m)(pd, td, validate=False) if 'validate' in type(m).__dataclass_fields__ else type(m)(pd, td)
+            J = D.remove_duplicate_nodes()
+            parts = [(J, 0, mA), (J, len(A), mB)]
+            PJ = J.doflocs
+        distinct = sorted(set(int(v) for c in A + B for v in t[:, c]))
+        h.concrete('one vertex per distinct point of the operands', PJ.shape[1] == len(distinct), '%d vs %d' % (PJ.shape[1], len(distinct)))
+        # which ORIGINAL vertex sits at a joined vertex (the first coordinate doubles as a tracer; all coordinates are then compared)
+        look = tracer_lookup(h, P)
+
+        if h.sym_mode:
+            # (Mesh.__add__ rounds: the joined coordinates are new terms; they are matched at a witness point of the path and the
+            #  match is then PROVED for all values by the coordinate obligations below)
+            from engine import zeval
+            env = h.ex.witness_env()
+            if env is None:
+                from fractions import Fraction as _Fr
+                env = {k_: _Fr(float(v_)) for k_, v_ in h.ex.vars.items()}      # the nominal point (this configuration follows the nominal path)
+            val = lambda s_: (tosym(s_).c if tosym(s_).c is not None else zeval.eval_exact(tosym(s_).a, env))
+            orig_vals = [tuple(val(P[d, v]) for d in range(P.shape[0])) for v in range(P.shape[1])]
+
+        def origin(Pm, j):
+            if h.sym_mode:
+                key = tuple(val(Pm[d, j]) for d in range(P.shape[0]))
+                return orig_vals.index(key) if key in orig_vals else -1
+            return look(float(Pm[0, j]))
+        for (Jm, off, src), cells_src in zip(parts, (A, B)):
+            tj = np.asarray(Jm.t)
+            for k, c_old in enumerate(cells_src):
+                org = [origin(Jm.doflocs, int(v)) for v in tj[:, off + k]]
+                # simplices are re-sorted by the constructor, quadrilaterals / hexahedra keep their local order
+                if m.refdom.__name__ in ('RefQuad', 'RefHex'):
+                    okc = org == [int(v) for v in t[:, c_old]]
+                else:
+                    okc = sorted(org) == sorted(int(v) for v in t[:, c_old])
+                h.concrete('cell %d of the joined mesh has the vertices of cell %d of the original' % (off + k, c_old), okc, '%s vs %s' % (org, t[:, c_old].tolist()))
+                for a, v in enumerate(tj[:, off + k]):
+                    if org[a] >= 0:
+                        h.zero('cell %d slot %d sits at the coordinates of original vertex %d' % (off + k, a, org[a]),
+                               np.asarray(Jm.doflocs[:, int(v)]) - np.asarray(P[:, org[a]]))
+        # merged interface: every original vertex occurs once in the joined table
+        orgs = [origin(PJ, j) for j in range(PJ.shape[1])]
+        h.concrete('every distinct point of the operands occurs exactly once in the joined vertex table', sorted(orgs) == distinct, str(orgs))
+        h.concrete('operand coordinates unchanged', all((x is y) or (h.sym_mode and tosym(x).a.eq(tosym(y).a)) or (not h.sym_mode and x == y)
+                                                        for x, y in zip(np.asarray(mA.doflocs).ravel(), snapA.ravel())))
+
+
 def unused_config(h, mesh):
     """remove_unused_nodes after vertices were orphaned."""
     import skfem as S
@@ -429,6 +508,11 @@ def build_configs(tier, seed):
     for mesh, nf in (('quad2', 7), ('tet2', 7), ('tri2perm', 5)) + ((('hex2', 11),) if not quick else ()):
         bnd = {'b%d' % f: [f] for f in range(nf)}
         add('restrict/%s' % mesh, restrict_config, mesh=mesh, selections=sels2, sub={'s0': [0], 's1': [1], 's01': [0, 1]}, bnd=bnd)
+    # joining meshes / merging duplicate vertices (nominal ordering of the points; see the stub note)
+    for mesh, split in [('tri2', ([0], [1])), ('tri3fan', ([0, 1], [2])), ('quad2', ([1], [0])), ('tet2', ([0], [1])), ('line3perm', ([0, 2], [1]))]:
+        for op in ('add', 'matmul', 'remove_duplicate_nodes'):
+            cfgs.append(dict(name='join/%s/%s+%s/%s' % (mesh, ''.join(map(str, split[0])), ''.join(map(str, split[1])), op), fn=join_config,
+                             kw=dict(mesh=mesh, split=split, op=op), opts=dict(timeout=900, follow_nominal=True)))
     add('unused/tri3fan', unused_config, mesh='tri3fan')
     add('unused/tet2', unused_config, mesh='tet2')
     # transformations
@@ -465,7 +549,9 @@ META = dict(
     symbolic='vertex coordinates, translation, scale factors, mirror normal and point, extrusion levels',
     bounds=dict(restrict='ALL ordered selections (sorted and unsorted) of the cells of 2-3 cell meshes with tags on every cell subset and every facet',
                 split='quadrilateral pairs in 3 (thorough 16) cyclic shifts, both styles'),
-    outside=['__add__/__matmul__/remove_duplicate_nodes (byte-wise np.unique on coordinates has no meaning on symbolic values)',
+    outside=['joins: float-level effects of the merge (rounding to 8 decimals, byte-wise comparison incl. signed zeros: the row-unique idiom is '
+             'modelled by its contract on symbolic rows, along the nominal ordering of the points only), joins of meshes that do not come '
+             'from one symbolic vertex set',
              'to_meshtet volume identity on general (non-parallelepiped) hexahedra', 'compositions beyond restrict/refine'],
     stubs=[],
     assumptions=['mesh validity'],
